@@ -158,7 +158,8 @@ def inline_temps(text, log):
         name, expr = m.group(1), m.group(2)
         after = _no_comments(text[m.end():])
         ids = set(re.findall(r"[A-Za-z_]\w*", expr))
-        call_free = not re.search(r"[A-Za-z_]\w*\s*[(\[<]", expr) and "++" not in expr and "--" not in expr and "&" not in expr
+        call_free = (not re.search(r"[A-Za-z_]\w*\s*[(\[<]", expr) and "++" not in expr and "--" not in expr and "&" not in expr
+                     and "->" not in expr and not re.search(r"(?:^|[(=,?:+\-*/%<>!|])\s*\*", expr))      # no call, no address-of, no dereference
         written = any(re.search(r"(?<![\w.>:])%s\s*(?:[-+*/%%|&^]?=(?!=)|\+\+|--)|(?:\+\+|--|&)\s*%s\b" % (re.escape(i), re.escape(i)), after) for i in ids)
         if call_free and ids and not written:
             rest, n = re.subn(r"(?<![\w.>:])%s\b" % re.escape(name), "(" + expr + ")", text[m.end():])
